@@ -3,7 +3,7 @@
 
    * frequencies are carried as the INTEGER multiplier k of fs/n (np.fft.fftfreq(n, 1/fs)[i] = k_i * fs/n);
      for fs > 0 the order of the frequencies is the order of k and "index >= 0" is "k >= 0";
-   * the sampling rate fs is a rational (every float is one); the one-sided mask is evaluated in Q;
+   * the sampling rate fs is a rational (every float is one); the one-sided mask is `k > 0` (repaired tree);
    * times are integer nanosecond ticks; interval_size L and the step st = (1-overlap)*L are ticks
      (a rational overlap a/b is covered by running the model on times scaled by b);
    * data values, DFT coefficients and powers live in an ABSTRACT field K (Record Field; the laws are
@@ -41,13 +41,17 @@ Section Keyed.
     if full then fft_table n X else nonneg (fft_table n X).
 End Keyed.
 
-(* the one-sided doubling mask: (index != 0) & (index < fs/2 - 1e-6) *)
+(* the one-sided doubling mask, as repaired in /repo:  doubled_freqs = index > 0  (on the rows index >= 0) *)
+Definition doubled (k : Z) : bool := 0 <? k.
+Definition double_rows {V : Type} (dbl : V -> V) (rows : list (Z * V)) : list (Z * V) :=
+  map (fun kv => if doubled (fst kv) then (fst kv, dbl (snd kv)) else kv) rows.
+
+(* HISTORY: the mask before the repair, (index != 0) & (index < fs/2 - 1e-6).  Its absolute 1e-6 guard is exact
+   only for fs/(2n) > 1e-6 (mask_orig_exact) and wrong below (mask_orig_low_rate_refuted). Not used by the model. *)
 Definition eps6 : Q := 1 # 1000000.
 Definition Qltb (a b : Q) : bool := negb (Qle_bool b a).
-Definition doubled (fs : Q) (n : nat) (k : Z) : bool :=
+Definition mask_orig (fs : Q) (n : nat) (k : Z) : bool :=
   negb (k =? 0) && Qltb (freq fs n k) (fs / (2 # 1) - eps6)%Q.
-Definition double_rows {V : Type} (dbl : V -> V) (fs : Q) (n : nat) (rows : list (Z * V)) : list (Z * V) :=
-  map (fun kv => if doubled fs n (fst kv) then (fst kv, dbl (snd kv)) else kv) rows.
 
 (* np.fft.fft(a, n): crop or zero-pad to n points *)
 Definition crop_pad {A : Type} (zero : A) (n : nat) (x : list A) : list A :=
@@ -180,7 +184,7 @@ Section OverField.
     let n' := resolve_n n x in
     let rows := map (fun kv => (fst kv, psd_scale fs n' * norm2 (snd kv)))
                     (compute_fft ts vs s e full false (Some n')) in
-    if full then rows else double_rows (fun p => two * p) fs n' rows.
+    if full then rows else double_rows (fun p => two * p) rows.
 
   (* compute_mean_power_spectral_density *)
   Definition periodogram (fs : Q) (N : nat) (seg : list K) : list K :=
@@ -195,7 +199,7 @@ Section OverField.
         let acc := fold_left vadd (map (periodogram fs N) segs) (repeat (f0 K) N) in
         let avg := map (fun p => fdiv K p (ofnat (length sl))) acc in
         let rows := fft_table N avg in
-        Some (if full then rows else double_rows (fun p => two * p) fs N (nonneg rows))
+        Some (if full then rows else double_rows (fun p => two * p) (nonneg rows))
     end.
 End OverField.
 
@@ -204,11 +208,13 @@ End OverField.
 
 (* which DFT coefficient (position in np.fft.fft's output) lands in which row, and its multiplier k *)
 Definition fft_positions (full : bool) (n : nat) : list (Z * nat) := spectrum_rows full n (seq 0 n).
-(* the factor (1 or 2) applied to scale*|X|^2 in each row of the PSD; fs = fsn / fsd *)
-Definition psd_mults (fsn fsd : Z) (full : bool) (n : nat) : list (Z * Z) :=
-  let fs := (fsn # Z.to_pos fsd)%Q in
+(* the factor (1 or 2) applied to scale*|X|^2 in each row of the PSD *)
+Definition psd_mults (full : bool) (n : nat) : list (Z * Z) :=
   let rows := spectrum_rows full n (repeat 1 n) in
-  if full then rows else double_rows (fun m => 2 * m) fs n rows.
+  if full then rows else double_rows (fun m => 2 * m) rows.
+(* the pre-repair mask on the one-sided rows, fs = fsn / fsd (history; compared with nothing on the current tree) *)
+Definition psd_mults_orig (fsn fsd : Z) (n : nat) : list (Z * bool) :=
+  map (fun kv => (fst kv, mask_orig (fsn # Z.to_pos fsd)%Q n (fst kv))) (spectrum_rows false n (repeat 1 n)).
 Definition crop_pad_z (n : nat) (x : list Z) : list Z := crop_pad 0 n x.
 Definition sumsq_z (x : list Z) : Z := fold_right (fun v a => v * v + a) 0 x.
 Definition epoch_idx (ts : list Z) (s e : Z) : list nat := restrict_idx ts [(s, e)].
